@@ -230,6 +230,22 @@ func (d *driver) runDecodeCase(w emitter, k int, c *decCase) {
 				}
 			}
 			e["err"] = err != nil
+			// the same call on a receiver that already holds another (non-normalised) element
+			if c.Fn != "ReadPoint" {
+				cfg := getConf()
+				var used banderwagon.Element
+				used.Add(&cfg.SRS[1], &cfg.SRS[2])
+				var err2 error
+				if c.Fn == "SetBytes" {
+					err2 = used.SetBytes(buf)
+				} else {
+					err2 = used.SetBytesUncompressed(buf, false)
+				}
+				e["err_used"] = err2 != nil
+				if err2 == nil {
+					e["out_used"] = coords(&used)
+				}
+			}
 			if err == nil {
 				e["out"] = coords(&el)
 				if c.Fn == "SetBytesUncompressed" {
